@@ -1087,7 +1087,14 @@ pub fn c11(rec: &mut Rec, rng: &mut Rng, thorough: bool) {
             a.extend_from_slice(&gen::valid_request(rng, &o).bytes());
         }
         match rng.below(6) {
-            0 => a.extend_from_slice(format!("PUT /rejected HTTP/1.1\r\nContent-Length: {}\r\n\r\n", limit as u64 + 1 + rng.below(5) as u64).as_bytes()),
+            0 => {
+                a.extend_from_slice(format!("PUT /rejected HTTP/1.1\r\nContent-Length: {}\r\n\r\n", limit as u64 + 1 + rng.below(5) as u64).as_bytes());
+                // a client that does not wait: the first bytes of the refused payload are already behind the blank line
+                if rng.chance(1, 2) {
+                    a.extend_from_slice(&b"abcd"[..rng.range(1, 4)]);
+                    rec.count("A:refused-payload-started");
+                }
+            }
             1 => a.extend_from_slice(b"GET /rejected HTTP/1.1\r\nContent-Length: abc\r\n"),
             2 => {
                 a.extend_from_slice(b"GET /rejected HTTP/1.1\r\nExpect: 100-continue\r\nX: ");
